@@ -41,12 +41,13 @@ const (
 	lBeginReadA  // read transaction on handle A
 	lEndReadA    //
 	lAsyncCloseA // File.Close of A in a goroutine: blocks while the read transaction is open
+	lOpenAWait   // OpenA with the wait flag while nobody holds the file: returns at once, the handle is as exclusive as any
 	lNumOps
 )
 
 var lockOpNames = []string{"OpenA", "OpenB", "CloseA", "CloseB", "Open(invalid options)", "Open(both headers damaged)", "Open(file truncated inside header)",
 	"Open(new file, max size below minimum)", "Open(path -> /dev/full)", "Open(wait flag) in goroutine", "CloseW",
-	"BeginReadonly on A", "end read tx on A", "CloseA in goroutine"}
+	"BeginReadonly on A", "end read tx on A", "CloseA in goroutine", "OpenA(wait flag, file free)"}
 
 func lockSeqString(seq []int) string {
 	var s []string
@@ -87,6 +88,7 @@ type lockWorld struct {
 	a, b, w       *txfile.File
 	waiting       chan waitResult
 	waiterStarted bool
+	waitFlag      bool // the next tryOpen uses FlagWaitLock
 	created       bool
 	viol          []pagedrv.Violation
 }
@@ -114,6 +116,8 @@ func (w *lockWorld) enabled(op int) bool {
 	switch op {
 	case lOpenA:
 		return w.a == nil
+	case lOpenAWait:
+		return !w.held() && w.waiting == nil
 	case lOpenB:
 		return w.b == nil
 	case lCloseA:
@@ -150,7 +154,11 @@ func (w *lockWorld) open(o txfile.Options) (*txfile.File, error, string) {
 // tryOpen implements OpenA/OpenB.
 func (w *lockWorld) tryOpen(slot **txfile.File, name string) {
 	holder := w.held()
-	f, err, pn := w.open(validOpts())
+	o := validOpts()
+	if w.waitFlag {
+		o.Flags |= txfile.FlagWaitLock
+	}
+	f, err, pn := w.open(o)
 	if pn != "" {
 		w.add("pathlock/panic", "%s panicked: %s", name, firstLine(pn))
 		return
@@ -298,6 +306,10 @@ func (w *lockWorld) apply(op int) {
 	switch op {
 	case lOpenA:
 		w.tryOpen(&w.a, "OpenA")
+	case lOpenAWait:
+		w.waitFlag = true
+		w.tryOpen(&w.a, "OpenA(wait flag)")
+		w.waitFlag = false
 	case lOpenB:
 		w.tryOpen(&w.b, "OpenB")
 	case lCloseA:
